@@ -73,9 +73,36 @@ func randomChooser(r *hx.Rng, stopPct int) dsx.Chooser {
 		if step > 2 && r.Chance(stopPct) || done && r.Chance(60) {
 			return -1
 		}
+		// the worker waits for the body of a streamed response: mostly end the wait (body ends / reset / client gone)
+		if e := has("E"); len(e) > 0 && r.Chance(80) {
+			switch y := r.Intn(10); {
+			case y < 3:
+				return e[r.Intn(len(e))]
+			case y < 8:
+				var xs []int
+				for _, i := range has("X") {
+					if strings.HasPrefix(opts[i], "X"+opts[e[0]][1:]+":") {
+						xs = append(xs, i)
+					}
+				}
+				if len(xs) > 0 {
+					return xs[r.Intn(len(xs))]
+				}
+			case y < 9:
+				if d := has("DR"); len(d) > 0 {
+					return d[0]
+				}
+			default:
+				if d := has("CC"); len(d) > 0 {
+					return d[0]
+				}
+			}
+		}
 		x := r.Intn(100)
 		var class []int
 		switch {
+		case x < 12:
+			class = has("B")
 		case x < 38:
 			class = has("R")
 			if r.Chance(45) { // a retryable answer on some live attempt
@@ -155,6 +182,64 @@ func persistChooser(kind string, arm int) dsx.Chooser {
 	}
 }
 
+// partialChooser drives one partial response: start, the head of a streamed response (data / trailers `dt`, status
+// `code`) on the latest live attempt, then `after` while the worker waits for the body —
+// "E" the body ends, "X:<reason>" the upstream stream is reset, "DR" / "CC" the client goes away,
+// "PT" / "GT" a timer fires first and then the body ends — then stop.  `pre` = "x": the first attempt is reset (connection
+// failed: retried by default) before, so that the partial response belongs to a retried attempt.
+func partialChooser(code int, dt, after, pre string) dsx.Chooser {
+	stage := 0
+	return func(step int, opts []string, done bool) int {
+		find := func(pfx, sfx string) int {
+			best := -1
+			for i, o := range opts {
+				if strings.HasPrefix(o, pfx) && strings.HasSuffix(o, sfx) {
+					best = i
+				}
+			}
+			return best
+		}
+		switch stage {
+		case 0:
+			stage = 1
+			return find("S", "")
+		case 1:
+			stage = 2
+			if pre == "x" {
+				if i := find("X", ":ConnectionFailed"); i >= 0 {
+					return i
+				}
+			}
+			fallthrough
+		case 2:
+			stage = 3
+			return find("B", fmt.Sprintf(":%d:%s", code, dt))
+		case 3:
+			stage = 4
+			switch {
+			case after == "E":
+				return find("E", "")
+			case strings.HasPrefix(after, "X:"):
+				return find("X", after[1:])
+			case after == "PT" || after == "GT":
+				if i := find(after, ""); i >= 0 && opts[i] == after {
+					return i
+				}
+				stage = 5
+				return find("E", "")
+			default:
+				return find(after, "")
+			}
+		case 4:
+			stage = 5
+			if after == "PT" || after == "GT" {
+				return find("E", "")
+			}
+		}
+		return -1
+	}
+}
+
 // RunMany executes n random histories (par at a time) and emits them under prop; c10 adds the ledger-oriented
 // configurations (every threshold in {0,1,2}, ambient load) and the persistent-failure histories.
 func RunMany(c *hx.Ctx, prop string, n, par int, c10 bool) {
@@ -164,6 +249,7 @@ func RunMany(c *hx.Ctx, prop string, n, par int, c10 bool) {
 		kind   string
 		arm    int
 		labels int
+		part   [4]string // partial-response family: code, dt, after, pre
 	}
 	jobs := make(chan job)
 	var wg sync.WaitGroup
@@ -174,7 +260,11 @@ func RunMany(c *hx.Ctx, prop string, n, par int, c10 bool) {
 			for j := range jobs {
 				var res dsx.Result
 				for try := 0; try < 3; try++ {
-					if j.kind == "" {
+					if j.kind == "partial" {
+						code := 200
+						fmt.Sscan(j.part[0], &code)
+						res = dsx.Run(j.cfg, partialChooser(code, j.part[1], j.part[2], j.part[3]), j.labels)
+					} else if j.kind == "" {
 						res = dsx.Run(j.cfg, randomChooser(hx.NewRng(j.seed), 8), j.labels)
 					} else {
 						res = dsx.Run(j.cfg, persistChooser(j.kind, j.arm), j.labels)
@@ -206,8 +296,16 @@ func RunMany(c *hx.Ctx, prop string, n, par int, c10 bool) {
 					c.Count(fmt.Sprintf("threshold.mr=%d.mq=%d", j.cfg.MR, j.cfg.MQ))
 					c.Count(fmt.Sprintf("ambient.ar=%d.aq=%d", j.cfg.AR, j.cfg.AQ))
 				}
-				if j.kind != "" {
+				if j.kind == "partial" {
+					c.Count("partial.after=" + strings.SplitN(j.part[2], ":", 2)[0])
+					if strings.Contains(","+res.Sched+",", ",E") || strings.Contains(res.Sched, ",X") || strings.Contains(res.Sched, ",DR") || strings.Contains(res.Sched, ",CC") {
+						c.Count("partial.wait-ended")
+					}
+				} else if j.kind != "" {
 					c.Count("persistent." + j.kind)
+				}
+				if strings.Contains(res.Out, "dh:") && strings.Contains(res.Out, ",dr") {
+					c.Count("outcome.reset-after-head")
 				}
 			}
 		}()
@@ -230,8 +328,36 @@ func RunMany(c *hx.Ctx, prop string, n, par int, c10 bool) {
 			if kind == "pf" {
 				arm = 1 + rng.Intn(4)
 			}
-			jobs <- job{cfg, 0, kind, arm, 20}
+			jobs <- job{cfg: cfg, kind: kind, arm: arm, labels: 20}
 			np++
+		}
+	}
+	// partial responses: head of a streamed response forwarded, then the body ends / the upstream is reset (retriable and
+	// non-retriable reasons, retry budget left or not) / the client goes away / a timer fires during the wait
+	afters := []string{"E", "X:ConnectionTermination", "X:ConnectionFailed", "X:StreamRemoteReset", "X:StreamOverflow", "X:UpstreamReset", "DR", "CC", "PT", "GT"}
+	for _, after := range afters {
+		for _, dt := range []string{"10", "01", "11"} {
+			for _, pre := range []string{"", "x"} {
+				if !c.Thorough() && rng.Chance(55) {
+					continue
+				}
+				cfg := dsx.Cfg{Route: "c", RetryOn: rng.Chance(80), N: rng.Pick([]int{0, 1, 2, 4}), Data: rng.Chance(40), Trailers: rng.Chance(20),
+					TryTimeout: after == "PT" || rng.Chance(30), LongGlobal: after != "GT" && rng.Chance(50)}
+				if rng.Chance(25) {
+					cfg.Codes = [][]int{{503}, {200}}[rng.Intn(2)]
+				}
+				if c10 {
+					cfg.MR = rng.Pick([]int{0, 1, 2})
+					cfg.MQ = rng.Pick([]int{0, 1, 2})
+					cfg.AR = rng.Intn(2)
+				}
+				code := "200"
+				if dt == "10" && rng.Chance(20) {
+					code = "503"
+				}
+				jobs <- job{cfg: cfg, kind: "partial", labels: 8, part: [4]string{code, dt, after, pre}}
+				np++
+			}
 		}
 	}
 	for i := np; i < n; i++ {
@@ -239,7 +365,7 @@ func RunMany(c *hx.Ctx, prop string, n, par int, c10 bool) {
 		if rng.Chance(25) {
 			labels = 14
 		}
-		jobs <- job{GenCfg(rng, c10), rng.U64(), "", 0, labels}
+		jobs <- job{cfg: GenCfg(rng, c10), seed: rng.U64(), labels: labels}
 	}
 	close(jobs)
 	wg.Wait()
